@@ -15,11 +15,12 @@ import (
 
 // key alphabets: a key is an index into one of these
 var c13NumKeys = []string{"0", "1", "2", "-1", "10"}
-var c13StrKeys = []string{`"a"`, `"b"`, `"c"`, `"B"`, `"é"`}
+var c13StrKeys = []string{`"a"`, `""`, `"b"`, `"B"`, `"é"`}
+var c13NumSpell = []string{"1", "1.0", "1e0", "2", "10e-1", "2.0"}
 var c13BigKeys = []string{"9007199254740992", "9007199254740993", "9007199254740994", "12345678901234567890", "12345678901234567891", "0.1", "0.10000000000000001", "1e30", "-9007199254740993"}
 var c13Spell = []string{"1", "1.0", "1e0", "2", `"a"`, `"b"`, `"é"`, `"😀"`, "null", "[1]"}
 
-var c13Ops = []string{"sort_by", "min_by", "max_by", "sort", "min", "max"}
+var c13Ops = []string{"sort_by", "min_by", "max_by", "sort", "min", "max", "sort_by_self"}
 
 func init() {
 	core.Register(&core.Check{
@@ -50,6 +51,8 @@ func (c c13Case) keyText(i int) string {
 		return c13StrKeys[c.Keys[i]]
 	case "big":
 		return c13BigKeys[c.Keys[i]]
+	case "numspell":
+		return c13NumSpell[c.Keys[i]]
 	}
 	return c13Spell[c.Keys[i]]
 }
@@ -123,6 +126,8 @@ func c13Check(r *core.Run, c c13Case, op string) *core.Violation {
 	switch op {
 	case "sort_by", "min_by", "max_by":
 		expr, input = op+"(@, &k)", objs
+	case "sort_by_self":
+		expr, input = "sort_by(@, &@)", vals
 	default:
 		expr, input = op+"(@)", vals
 	}
@@ -156,6 +161,17 @@ func c13Check(r *core.Run, c c13Case, op string) *core.Violation {
 	}
 	sort.SliceStable(idx, func(a, b int) bool { return c13Less(keys[idx[a]], keys[idx[b]]) })
 	switch op {
+	case "sort_by_self":
+		// stable by value: the spellings of equal-valued numbers keep their input order
+		got, ok := o.Raw.([]any)
+		if !ok || len(got) != n {
+			return mk("wrong-length", fmt.Sprintf("an array of %d elements", n))
+		}
+		for i, j := range idx {
+			if core.ToJSONText(got[i]) != core.ToJSONText(vals[j]) {
+				return mk("unstable-or-unordered", "the stable order of the input values (spellings kept in input order among equal values)")
+			}
+		}
 	case "sort_by":
 		want := make([]any, n)
 		for i, j := range idx {
@@ -295,8 +311,9 @@ func c13Enumerate(thorough bool, f func(c13Case)) {
 	rec("spell", len(c13Spell), spell, nil)
 	// numbers that differ below the resolution of binary64
 	rec("big", len(c13BigKeys), 3, nil)
+	rec("numspell", len(c13NumSpell), 4, nil)
 	// long arrays: complete pattern families
-	for _, kind := range []string{"num", "str"} {
+	for _, kind := range []string{"num", "str", "numspell"} {
 		for n := 13; n <= 64; n++ {
 			for m := 1; m <= 5; m++ { // periodic i mod m (m = 1: constant)
 				keys := make([]int, n)
